@@ -60,8 +60,8 @@ func (w *World) Restart() {
 		log, w.Scheme, w.Cache, w.Uncached, ClassDefault, w.Client, mapper)
 	w.ctrls[CtrlRemotePhase] = objectsetphases.NewMultiClusterObjectSetPhaseController(
 		log, w.Scheme, w.Cache, w.Uncached, ClassRemote, w.Client, w.Client, mapper)
-	w.ctrls[CtrlObjectDeployment] = objectdeployments.NewObjectDeploymentController(w.Client, log, w.Scheme)
-	w.ctrls[CtrlClusterObjectDeployment] = objectdeployments.NewClusterObjectDeploymentController(w.Client, log, w.Scheme)
+	w.ctrls[CtrlObjectDeployment] = objectdeployments.NewObjectDeploymentController(w.DeployClient, log, w.Scheme)
+	w.ctrls[CtrlClusterObjectDeployment] = objectdeployments.NewClusterObjectDeploymentController(w.DeployClient, log, w.Scheme)
 	w.restartExtra()
 }
 
